@@ -1628,7 +1628,7 @@ Qed.
 Theorem resolve_no_sign_unchanged : forall ev g,
   no_sign (gr_procs g) = true ->
   exists g', resolve_rules ev g = Ok g' /\ group_obs g' = group_obs g
-             /\ spec_resolve ev (gr_procs g) = Some (group_obs g).
+             /\ spec_resolve ev g = Some (group_obs g).
 Proof.
   intros ev g H. unfold no_sign in H. rewrite forallb_forall in H.
   assert (Hat : filter (fun kp => negb (is_nil (i_at (g_idt (snd kp))))) (sorted_procs (gr_procs g)) = []).
@@ -1638,7 +1638,7 @@ Proof.
   { apply filter_nil_all. intros kp Hkp. apply in_sorted_procs in Hkp. specialize (H _ Hkp).
     apply andb_prop in H. destruct H as (_ & H). rewrite H. reflexivity. }
   assert (Hplan : at_plan ev g = []) by (unfold at_plan; rewrite Hat; reflexivity).
-  assert (Hspec : spec_resolve ev (gr_procs g) = Some (group_obs g)).
+  assert (Hspec : spec_resolve ev g = Some (group_obs g)).
   { unfold spec_resolve, no_sign. assert (forallb _ (gr_procs g) = true) as -> by (apply forallb_forall; exact H).
     reflexivity. }
   unfold resolve_rules.
@@ -1872,10 +1872,8 @@ Proof.
 Qed.
 
 (* ================================================================ resolution_refines_spec *)
-(* the lists held by the group are those of its waiting processes (what add_process maintains on uniform groups) *)
-Definition group_consistent (g : group) : Prop :=
-  (forall L, uniform_at (gr_procs g) = Some L -> gr_at g = Some L /\ truthy (gr_hash g) = false)
-  /\ (forall L, uniform_hash (gr_procs g) = Some L -> gr_hash g = Some L /\ truthy (gr_at g) = false).
+Lemma holds_eq : forall o L, holds o L = true -> o = Some L.
+Proof. intros [l|] L H; simpl in H; [|discriminate]. apply zl_eqb_sound in H. subst. reflexivity. Qed.
 
 Lemma uniform_at_nonempty : forall ps L, uniform_at ps = Some L -> L <> [].
 Proof.
@@ -1884,22 +1882,26 @@ Proof.
   intros Hn. rewrite Hn in E0. discriminate.
 Qed.
 
-(* MAIN (resolution): whenever the specification gives the expected observation of a resolve_rules, and outside
-   the class of finding `hash-empty-ref`, resolve_rules returns it *)
+(* MAIN (resolution): whenever the specification gives the expected observation of a resolve_rules (in particular
+   the group holds the one list its waiting processes carry), and outside the class of finding `hash-empty-ref`,
+   resolve_rules returns it *)
 Theorem resolution_refines_spec : forall ev g ts,
-  NoDup (instances ev) -> group_consistent g ->
-  spec_resolve ev (gr_procs g) = Some ts ->
+  NoDup (instances ev) ->
+  spec_resolve ev g = Some ts ->
   class_hash_empty_ref ev g = false ->
   exists g', resolve_rules ev g = Ok g' /\ group_obs g' = ts.
 Proof.
-  intros ev g ts Hinst (Hca & Hch) Hs Hk. unfold spec_resolve in Hs.
+  intros ev g ts Hinst Hs Hk. unfold spec_resolve in Hs.
   destruct (no_sign (gr_procs g)) eqn:Ens.
   - inversion Hs; subst. destruct (resolve_no_sign_unchanged ev g Ens) as (g' & H1 & H2 & _). exists g'. auto.
   - destruct (uniform_at (gr_procs g)) as [La|] eqn:Eua; destruct (uniform_hash (gr_procs g)) as [Lh|] eqn:Euh;
       try discriminate.
-    + inversion Hs; subst. destruct (Hca La eq_refl) as (Hat & Hh).
+    + destruct (holds (gr_at g) La && negb (truthy (gr_hash g))) eqn:Ec; [|discriminate].
+      apply andb_prop in Ec. destruct Ec as (Hat & Hh). apply holds_eq in Hat. apply negb_true_iff in Hh.
+      inversion Hs; subst.
       apply (resolve_at_refines_spec ev g La Hinst Hat (uniform_at_nonempty _ _ Eua) Hh Eua).
-    + destruct (Hch Lh eq_refl) as (Hh & Hat).
+    + destruct (holds (gr_hash g) Lh && negb (truthy (gr_at g))) eqn:Ec; [|discriminate].
+      apply andb_prop in Ec. destruct Ec as (Hh & Hat). apply holds_eq in Hh. apply negb_true_iff in Hat.
       destruct (is_nil (ref_identifiers ev Lh)) eqn:Eref.
       * (* no known name in the list: the class of the finding, excluded *)
         exfalso. unfold class_hash_empty_ref in Hk. rewrite Hh in Hk.
@@ -1919,7 +1921,14 @@ Qed.
 Example resolution_refines_spec_example :
   let w := mkI [] [] [104; 102] in
   let g := fold_left add_process [mkG 1 w; mkG 2 w; mkG 3 w] group_init in
-  uniform_hash (gr_procs g) = Some [104; 102] /\ uniform_at (gr_procs g) = None
-  /\ gr_hash g = Some [104; 102] /\ truthy (gr_at g) = false
-  /\ spec_resolve (mkEnv [101; 102; 103; 104] [] []) (gr_procs g) = Some [([104], [], []); ([102], [], []); ([104], [], [])].
+  spec_resolve (mkEnv [101; 102; 103; 104] [] []) g = Some [([104], [], []); ([102], [], []); ([104], [], [])].
+Proof. vm_compute. reflexivity. Qed.
+
+(* the alarm of seed 3, kept as a regression: two processes of one program got different '@' lists from two
+   <program> elements; the group keeps the list of the last one added: nothing is specified, nothing is demanded *)
+Example inconsistent_group_unspecified :
+  let ev := mkEnv [10; 11; 12; 13] [(20, 10)] [] in
+  let g := mkGroup [mkG 2 (mkI [] [S_STAR] []); mkG 0 (mkI [10] [] [])] (Some [14; 20]) None in
+  uniform_at (gr_procs g) = Some [S_STAR] /\ spec_resolve ev g = None
+  /\ rmap group_obs (resolve_rules ev g) = Ok [([], [S_STAR], []); ([10], [], [])].
 Proof. vm_compute. repeat split. Qed.
